@@ -1,26 +1,289 @@
 """pyvc.strlib -- contracts for str methods, formatting and int()/str()
 conversions over SMT strings (trusted library contracts, differentially
-tested in thorough mode)."""
+tested against CPython in thorough mode)."""
 import z3
-from .core import Unsupported, zint, zstr, simp, is_z3
+from .core import Unsupported, zint, zstr, zbool, simp, is_z3, CV
 from .heap import Native, PList
+
+WS = " \t\n\r\x0b\x0c"
+
+
+def _conc(v):
+    return isinstance(v, (str, int, bool)) or v is None
+
+
+def re_ws():
+    return z3.Union(*[z3.Re(z3.StringVal(c)) for c in WS])
+
+
+def re_digit():
+    return z3.Range("0", "9")
 
 
 def str_method(I, s, name):
-    raise Unsupported(f"str.{name}")
+    from .interp import OpaqueStr, ConcIter
+
+    def N(fn):
+        return Native("str." + name, fn)
+
+    if isinstance(s, str):
+        def conc_call(I_, a, k):
+            a = [I_.unC(x) for x in a]
+            if name == "join":
+                items = I_.iter_concrete(a[0])
+                if any(isinstance(x, OpaqueStr) for x in items):
+                    return OpaqueStr()
+                if all(isinstance(x, str) for x in items):
+                    return s.join(items)
+                if not items:
+                    return ""
+                parts = []
+                for i, x in enumerate(items):
+                    if i:
+                        parts.append(s)
+                    parts.append(x)
+                parts = [p for p in parts if not (isinstance(p, str) and p == "")]
+                return z3.Concat(*[zstr(p) for p in parts]) if len(parts) > 1 else zstr(parts[0])
+            if name == "format":
+                if all(_conc(x) for x in a) and all(_conc(x) for x in k.values()):
+                    return s.format(*a, **k)
+                return sym_format(I_, s, a, k)
+            if all(isinstance(x, (str, int, bool, tuple)) or x is None for x in a):
+                r = getattr(s, name)(*a, **{kk: I_.unC(v) for kk, v in k.items()})
+                if isinstance(r, list):
+                    return PList(r)
+                return r
+            # concrete receiver, symbolic argument
+            return sym_method(I_, z3.StringVal(s), name, a, k)
+        if not hasattr(s, name):
+            raise Unsupported(f"str.{name}")
+        return N(conc_call)
+    return N(lambda I_, a, k: sym_method(I_, s, name, [I_.unC(x) for x in a], k))
+
+
+def sym_method(I, s, name, a, k):
+    cx = I.ctx
+    s = zstr(s)
+    if name == "startswith":
+        if isinstance(a[0], tuple):
+            return simp(z3.Or([z3.PrefixOf(zstr(x), s) for x in a[0]]))
+        return simp(z3.PrefixOf(zstr(a[0]), s))
+    if name == "endswith":
+        if isinstance(a[0], tuple):
+            return simp(z3.Or([z3.SuffixOf(zstr(x), s) for x in a[0]]))
+        return simp(z3.SuffixOf(zstr(a[0]), s))
+    if name in ("strip", "lstrip", "rstrip"):
+        chars = a[0] if a and a[0] is not None else WS
+        if not isinstance(chars, str):
+            raise Unsupported("strip with symbolic character set")
+        cset = z3.Union(*[z3.Re(z3.StringVal(c)) for c in chars]) if len(chars) > 1 else z3.Re(z3.StringVal(chars))
+        pre = cx.fresh_str("lead") if name in ("strip", "lstrip") else z3.StringVal("")
+        post = cx.fresh_str("trail") if name in ("strip", "rstrip") else z3.StringVal("")
+        mid = cx.fresh_str("core")
+        cx.assume(s == z3.Concat(pre, mid, post))
+        if name in ("strip", "lstrip"):
+            cx.assume(z3.InRe(pre, z3.Star(cset)))
+            cx.assume(z3.Or(z3.Length(mid) == 0, z3.Not(z3.InRe(z3.SubString(mid, 0, 1), cset))))
+        if name in ("strip", "rstrip"):
+            cx.assume(z3.InRe(post, z3.Star(cset)))
+            cx.assume(z3.Or(z3.Length(mid) == 0,
+                            z3.Not(z3.InRe(z3.SubString(mid, z3.Length(mid) - 1, 1), cset))))
+        cx.trusted.add("str.strip/lstrip/rstrip: s == lead ++ core ++ trail, lead/trail in chars*, core does not start/end with a char")
+        return mid
+    if name == "find":
+        return z3.IndexOf(s, zstr(a[0]), zint(a[1]) if len(a) > 1 else 0)
+    if name == "index":
+        r = z3.IndexOf(s, zstr(a[0]), 0)
+        if cx.branch(r < 0):
+            I.throw("ValueError", "substring not found")
+        return r
+    if name == "replace":
+        if len(a) > 2:
+            raise Unsupported("str.replace with count")
+        return replace_all(I, s, a[0], a[1])
+    if name in ("ljust", "rjust"):
+        w = a[0]
+        fill = a[1] if len(a) > 1 else " "
+        n = z3.Length(s)
+        padlen = z3.If(zint(w) > n, zint(w) - n, 0)
+        pad = cx.fresh_str("pad")
+        cx.assume(z3.Length(pad) == padlen)
+        cx.assume(z3.InRe(pad, z3.Star(z3.Re(z3.StringVal(fill)))))
+        return z3.Concat(s, pad) if name == "ljust" else z3.Concat(pad, s)
+    if name == "isdigit":
+        return simp(z3.InRe(s, z3.Plus(re_digit())))
+    if name == "isspace":
+        return simp(z3.InRe(s, z3.Plus(re_ws())))
+    if name == "upper" or name == "lower":
+        raise Unsupported("case conversion of a symbolic string")
+    if name == "partition":
+        sep = zstr(a[0])
+        i = z3.IndexOf(s, sep, 0)
+        if cx.branch(i < 0):
+            return (s, "", "")
+        return (z3.SubString(s, 0, i), a[0], z3.SubString(s, i + z3.Length(sep), z3.Length(s)))
+    if name == "encode":
+        return s
+    if name == "__len__":
+        return z3.Length(s)
+    if name == "count":
+        raise Unsupported("str.count on a symbolic string")
+    if name == "split":
+        raise Unsupported("str.split on a symbolic string")
+    if name == "join":
+        items = I.iter_concrete(a[0])
+        parts = []
+        for i, x in enumerate(items):
+            if i:
+                parts.append(s)
+            parts.append(zstr(x))
+        if not parts:
+            return ""
+        return z3.Concat(*parts) if len(parts) > 1 else parts[0]
+    raise Unsupported(f"str.{name} on a symbolic string")
+
+
+def replace_all(I, s, old, new):
+    """s.replace(old, new) for a single-character `old`"""
+    if isinstance(old, str) and len(old) == 1:
+        return z3.ReplaceAll(zstr(s), zstr(old), zstr(new)) if hasattr(z3, "ReplaceAll") else _unsup("replace_all")
+    raise Unsupported("str.replace of a multi-character pattern on a symbolic string")
+
+
+def _unsup(m):
+    raise Unsupported(m)
 
 
 def str_getitem(I, s, idx):
-    raise Unsupported("str subscript")
+    from .heap import SliceObj
+    from .natives import slice_indices, norm_index
+    if isinstance(s, str):
+        if isinstance(idx, SliceObj):
+            a, b, c = (I.unC(x) for x in (idx.start, idx.stop, idx.step))
+            if all(x is None or isinstance(x, int) for x in (a, b, c)):
+                return s[slice(a, b, c)]
+        else:
+            i = I.unC(idx)
+            if isinstance(i, int):
+                if not (-len(s) <= i < len(s)):
+                    I.throw("IndexError", "string index out of range")
+                return s[i]
+    zs = zstr(s)
+    n = len(s) if isinstance(s, str) else z3.Length(zs)
+    if isinstance(idx, SliceObj):
+        start, stop, step = slice_indices(I, idx, n)
+        if step != 1:
+            raise Unsupported("string slice with a step")
+        ln = simp(z3.If(zint(stop) > zint(start), zint(stop) - zint(start), 0))
+        return simp(z3.SubString(zs, zint(start), ln))
+    j = norm_index(I, idx, n, "string index")
+    return simp(z3.SubString(zs, zint(j), 1))
+
+
+# --------------------------------------------------------------------------
+# numbers <-> strings
+
+def int_of_str(I, s, base=10):
+    """int(s): optional surrounding whitespace, optional sign, digits
+    (underscores are not modelled: strings containing '_' are outside the
+    claim and listed in the trusted base)"""
+    if base != 10:
+        raise Unsupported("int() with base != 10")
+    if isinstance(s, str):
+        try:
+            return int(s)
+        except ValueError:
+            I.throw("ValueError", "invalid literal for int()")
+    cx = I.ctx
+    zs = zstr(s)
+    ws = z3.Star(re_ws())
+    sign = z3.Option(z3.Union(z3.Re(z3.StringVal("+")), z3.Re(z3.StringVal("-"))))
+    pat = z3.Concat(ws, sign, z3.Plus(re_digit()), ws)
+    ok = simp(z3.InRe(zs, pat))
+    cx.trusted.add("int(str): accepts [ws][+-]digits[ws] (no '_' grouping, ASCII digits only), value by str.to_int")
+    if not cx.branch(ok):
+        I.throw("ValueError", "invalid literal for int()")
+    lead, sg, dg, trail = (cx.fresh_str(n) for n in ("ws1", "sign", "digits", "ws2"))
+    cx.assume(zs == z3.Concat(lead, sg, dg, trail))
+    cx.assume(z3.InRe(lead, ws))
+    cx.assume(z3.InRe(trail, ws))
+    cx.assume(z3.InRe(sg, sign))
+    cx.assume(z3.InRe(dg, z3.Plus(re_digit())))
+    v = z3.StrToInt(dg)
+    return simp(z3.If(sg == z3.StringVal("-"), -v, v))
 
 
 def format_spec(I, val, spec):
+    from .interp import OpaqueStr
+    if isinstance(spec, str) and isinstance(val, (int, str)) and not isinstance(val, bool):
+        try:
+            return format(val, spec)
+        except (ValueError, TypeError):
+            I.throw("ValueError", "invalid format spec")
+    if not isinstance(spec, str):
+        raise Unsupported("symbolic format spec")
+    # [[fill]align][width][d]
+    import re
+    m = re.fullmatch(r"(?:(.)?([<>^]))?(0)?(\d+)?(d|s)?", spec)
+    if m:
+        fill, align, zero, width, kind = m.groups()
+        if isinstance(val, z3.ExprRef) or isinstance(val, (int, str)):
+            from .natives import to_str
+            body = to_str(I, val) if not (is_z3(val) and val.sort() == z3.StringSort()) else val
+            is_num = not (isinstance(val, str) or (is_z3(val) and val.sort() == z3.StringSort()))
+            if kind == "d" and not is_num:
+                I.throw("ValueError", "format code 'd' for str")
+            if width is None:
+                return body
+            if zero and not align:
+                fill, align = "0", ">"
+                if is_num:
+                    raise Unsupported("zero-padded numeric format")
+            w = int(width)
+            fill = fill or " "
+            align = align or (">" if is_num else "<")
+            if align == "^":
+                raise Unsupported("centered format")
+            zb = zstr(body)
+            n = z3.Length(zb)
+            pad = I.ctx.fresh_str("pad")
+            I.ctx.assume(z3.Length(pad) == z3.If(n < w, w - n, 0))
+            I.ctx.assume(z3.InRe(pad, z3.Star(z3.Re(z3.StringVal(fill)))))
+            I.ctx.trusted.add("format(x, '[fill][<>]width[d]') == padding ++ str(x) / str(x) ++ padding, len == max(width, len(str(x)))")
+            return z3.Concat(pad, zb) if align == ">" else z3.Concat(zb, pad)
     raise Unsupported(f"format spec {spec!r}")
 
 
+def sym_format(I, fmt, a, k):
+    """'...{}...{:>5d}...'.format(args) with positional auto-numbered fields"""
+    import string
+    parts = []
+    idx = 0
+    for lit, field, spec, conv in string.Formatter().parse(fmt):
+        if lit:
+            parts.append(lit)
+        if field is None:
+            continue
+        if field == "":
+            v = a[idx]
+            idx += 1
+        elif field.isdigit():
+            v = a[int(field)]
+        else:
+            v = k[field]
+        from .natives import format_value
+        parts.append(format_value(I, v, spec or None, ord(conv) if conv else -1))
+    from .interp import OpaqueStr
+    if any(isinstance(p, OpaqueStr) for p in parts):
+        return OpaqueStr()
+    if all(isinstance(p, str) for p in parts):
+        return "".join(parts)
+    return z3.Concat(*[zstr(p) for p in parts]) if len(parts) > 1 else zstr(parts[0])
+
+
 def percent_format(I, fmt, arg):
-    raise Unsupported("% formatting")
-
-
-def int_of_str(I, s, base=10):
-    raise Unsupported("int(str)")
+    args = arg if isinstance(arg, tuple) else (arg,)
+    args = tuple(I.unC(x) for x in args)
+    if all(isinstance(x, (int, str, float)) for x in args):
+        return fmt % args
+    raise Unsupported("% formatting with symbolic arguments")
